@@ -10,9 +10,9 @@ import (
 )
 
 // InModes are the ways a stream of Newick trees can be handed to a command: on standard input,
-// as a file named with -i, as a gzip-compressed file, or as a Nexus document (on standard input
+// as a file named with -i (LF or CRLF line ends), as a gzip-compressed file, or as a Nexus document (on standard input
 // or in a file) selected with --format nexus.
-var InModes = []string{"stdin", "stdin", "file", "gz", "nexus", "nexus-file", "nexus-translate"}
+var InModes = []string{"stdin", "stdin", "file", "gz", "nexus", "nexus-file", "nexus-translate", "crlf"}
 
 // Present turns a text of Newick trees (one per line) into the arguments, standard input and
 // files of the given input mode. Modes that cannot represent the text (a line that is not a
@@ -34,6 +34,10 @@ func Present(mode, text, iflag string) (args []string, stdin string, files map[s
 		return []string{"--format", "nexus"}, doc, files, mode
 	}
 	switch mode {
+	case "crlf":
+		// a file written on another platform: CRLF line ends
+		files["in_trees.nw"] = strings.ReplaceAll(text, "\n", "\r\n")
+		return []string{iflag, "in_trees.nw"}, "", files, mode
 	case "file":
 		files["in_trees.nw"] = text
 		return []string{iflag, "in_trees.nw"}, "", files, mode
